@@ -91,7 +91,7 @@ TEXTS["C10"] = {
 TEXTS["C18"] = {
     "text": "Proved on the model of generateBlock for every pool state: a batch never exceeds the configured size whenever the ready counter is positive (C18_batch_size_bound, by a loop invariant over the "
             "priority-index iteration incl. the skipped-transaction drain loop); the pointers of one batch are pairwise distinct, none was already batched and uncommitted, and each carries the account's committed nonce or the "
-            "successor of a batched nonce — for every pool state, also with two priority entries for one pointer (C18_generate_gap_free_no_repeat, invariant BInv in Proofs/PoolBatch.lean; C18_batch_is_pointer_image, C18_batched_grows_by_batch). "
+            "successor of a batched nonce — for every pool state, also with two priority entries for one pointer (C18_generate_gap_free_no_repeat, invariant BInv in Proofs/PoolBatch.lean; C18_batch_is_pointer_image, C18_batched_grows_by_batch); a generated batch carries the previous sequence number plus one, a call that generates nothing leaves it (C18_seqno_steps_by_one). "
             "Across commits, evictions and restarts gap-freeness, once-only, given-only and consecutive heights are decided by the model correspondence on the real mempoolImpl "
             "(all observable outputs and the sizes of every internal index after every step) plus a model-free checker of the batch stream. Known finding: after commits of blocks the node never held the cached "
             "commit nonce is stale and an old transaction is batched below the committed nonce.",
@@ -102,7 +102,8 @@ TEXTS["C19"] = {
     "text": "Proved on the model: the age rule evicts only transactions that are held, old, not batched, not ready and parked (C19_evict_only_old_nonready_nonbatched, C19_evict_count), GetTransaction returns the "
             "item stored under the hash's pointer (C19_getTx_from_items), HasPendingRequest is the ready counter (C19_pending_flag_is_counter). No silent loss, one operation at a time, for every pool state: batch building forgets nothing "
             "(C19_generate_forgets_nothing), ProcessTransactions forgets a held hash only by supersession of its (account, nonce) (C19_process_forgets_only_superseded, C19_admission_sound), a commit only the hashes it "
-            "names (C19_commit_forgets_only_committed), the age rule only parked unbatched holders (C19_evict_forgets_only_parked). No-silent-loss over whole histories, pending-nonce exactness and bounded liveness "
+            "names (C19_commit_forgets_only_committed), the age rule only parked unbatched holders (C19_evict_forgets_only_parked); and over every history of admissions, batch generations, commits and evictions from "
+            "any pool state a held hash stays held to the end unless one of these three reasons applied at some point (C19_history_no_silent_loss). Pending-nonce exactness and bounded liveness "
             "(60 rounds of generate+commit) are decided by correspondence and a model-free monitor over GetTransaction of every hash ever given. Two defects found here were repaired by fix: commits "
             "(eviction corrupted other accounts' nonce indices; GetTransaction returned a superseding tx); known finding: pending nonce stale after foreign commits.",
     "note": TB,
